@@ -74,7 +74,24 @@ def sized_cfg(ops, nslots, nblocks, maxframes, hows, emit=True, view="CanonView"
         "CHECK_DEADLOCK FALSE", ""])
 
 
+def _drop_big(path):
+    """the exported behaviours of a stage run to gigabytes: once replayed they are not needed any more (a violation's
+    replay file carries its own behaviour)"""
+    try:
+        if os.path.getsize(path) > 20_000_000:
+            os.remove(path)
+    except OSError:
+        pass
+
+
 def graph_replay(prop, tier, name, family, root, modules, cfg_text, nslots, harness_cfg="a", tlc_timeout=5400, simulate=None, scale=1, cats=None):
+    try:
+        return _graph_replay(prop, tier, name, family, root, modules, cfg_text, nslots, harness_cfg, tlc_timeout, simulate, scale, cats)
+    finally:
+        _drop_big(os.path.join(workdir(prop), name + ".out"))
+
+
+def _graph_replay(prop, tier, name, family, root, modules, cfg_text, nslots, harness_cfg="a", tlc_timeout=5400, simulate=None, scale=1, cats=None):
     """TLC explores the handle-level specification exhaustively (invariants + action properties) and
     exports one concrete behaviour per transition; every behaviour is replayed into the real crate and
     the implementation's observable state compared with the specification's projection."""
